@@ -2259,9 +2259,16 @@ class Power(Array):
     def _power(self, n):
         if self.dtype == complex or n.dtype == complex:
             return
+        # (x**p)**n equals x**(p*n) for negative x only if the parity of p is
+        # known: for even p the sign of x is lost and must be removed from the
+        # base, unless p*n is even as well.
+        p = self.power._const_uniform
+        if p is None:
+            return
         func = self.func
         newpower = multiply(self.power, n)
-        if iszero(self.power % astype(2, self.power.dtype)) and not iszero(newpower % astype(2, newpower.dtype)):
+        pn = newpower._const_uniform
+        if p % 2 == 0 and (pn is None or pn % 2 != 0):
             func = abs(func)
         return Power(func, newpower)
 
